@@ -52,15 +52,58 @@ Definition switch {A} (l : list A) (idx : nat) : list A :=
   | Some x => x :: firstn idx l ++ skipn (S idx) l
   end.
 
+(* The file a path spelling denotes on disk, relative to the session's directory: the components between slashes, without
+   the empty ones and ".", and with "d/.." removed (every directory named in a path exists and is not a symbolic link --
+   assumption of the model; the generated sessions only name the existing directory "sub").  The BUFFER TABLE never uses
+   this: bufs_find / bufs_open / ec_write keep and compare the path exactly as typed (`./a` and `a` are two buffers);
+   only open(2) -- fs_get / fs_put below, used by edit_read and ec_write -- goes through fskey. *)
+Fixpoint comps (p : path) (cur : path) : list path :=
+  match p with
+  | [] => [rev cur]
+  | c :: r => if N.eqb c 47 then rev cur :: comps r [] else comps r (c :: cur)
+  end.
+Definition is_dot (c : path) : bool := path_eqb c [46%N].
+Definition is_dotdot (c : path) : bool := path_eqb c [46%N; 46%N].
+(* stk: the components kept so far, innermost first *)
+Fixpoint norm_comps (abs : bool) (cs : list path) (stk : list path) : list path :=
+  match cs with
+  | [] => rev stk
+  | c :: r =>
+      match c with
+      | [] => norm_comps abs r stk
+      | _ => if is_dot c then norm_comps abs r stk
+             else if is_dotdot c then
+               match stk with
+               | [] => if abs then norm_comps abs r [] else norm_comps abs r [c]
+               | t :: stk' => if is_dotdot t then norm_comps abs r (c :: stk) else norm_comps abs r stk'
+               end
+             else norm_comps abs r (c :: stk)
+      end
+  end.
+Fixpoint join_comps (cs : list path) : path :=
+  match cs with
+  | [] => []
+  | [c] => c
+  | c :: r => c ++ 47%N :: join_comps r
+  end.
+Definition fskey (p : path) : path :=
+  match p with
+  | [] => []
+  | c :: _ =>
+      let abs := N.eqb c 47 in
+      let k := join_comps (norm_comps abs (comps p []) []) in
+      if abs then 47%N :: k else k
+  end.
+
 Fixpoint fs_get (fs : list (path * content)) (p : path) : option content :=
   match fs with
   | [] => None
-  | (q, c) :: r => if path_eqb q p then Some c else fs_get r p
+  | (q, c) :: r => if path_eqb (fskey q) (fskey p) then Some c else fs_get r p
   end.
 Fixpoint fs_put (fs : list (path * content)) (p : path) (c : content) : list (path * content) :=
   match fs with
   | [] => [(p, c)]
-  | (q, d) :: r => if path_eqb q p then (q, c) :: r else (q, d) :: fs_put r p c
+  | (q, d) :: r => if path_eqb (fskey q) (fskey p) then (q, c) :: r else (q, d) :: fs_put r p c
   end.
 Definition mtime (fs : list (path * content)) (p : path) : Z :=
   match fs_get fs p with Some _ => TNOW | None => -1 end.
@@ -337,7 +380,9 @@ Definition ex_next (s : st) (dis : Z) : st * list ev :=
       (if ok then set_next_pos s1 idx else s1, evs)
   end.
 
-(* ec_write for the whole buffer: w, w!, w path, w! path *)
+(* ec_write for the whole buffer: w, w!, w path, w! path.  The unnamed buffer takes the path AS TYPED for its name
+   (bufs[0].path = uc_dup(path)): the third place, after bufs_find and bufs_open, that decides what a buffer is called;
+   the file is the one fskey names *)
 Definition ec_write (s : st) (bang : bool) (p : option path) : st * list ev :=
   match slot0 s with
   | None => (s, [])
